@@ -256,4 +256,7 @@ as the numbers of `BinOp::precedence` in `src/parser/binoptree.rs`.  (Vacuous wh
 the source's shape; then the table dump through the hooks is the tie.) -/
 theorem C08_precedence_from_source : binopPrecedenceOK = true := binopPrecedence_from_source
 
+/-- likewise the unary operators: the tokens `From<TokenKind> for UnaryOp` maps are exactly the model's `-`, `!`, `~` -/
+theorem C08_unary_from_source : unaryOperatorsOK = true := unaryOperators_from_source
+
 end Dtr
